@@ -45,7 +45,9 @@ def build(hashed, sigtype=0, pk=1, halg=8):
     unh = bytes([9, 16, 1, 2, 3, 4, 5, 6, 7, 8])                  # unhashed Issuer
     body = bytearray([4, sigtype, pk, halg, len(hashed) // 256, len(hashed) % 256]) + hashed
     region = bytes(body)
-    body += bytearray([0, len(unh)]) + unh + b'\xAB\xCD' + b'\x00\x09\x01\xFF'     # hash2, one RSA MPI
+    body += bytearray([0, len(unh)]) + unh + b'\xAB\xCD' + b'\x00\x09\x01\xFF'     # hash2, one MPI (RSA)
+    if pk not in (1, 2, 3):
+        body += b'\x00\x09\x01\xFE'                                               # DSA/ECDSA/EdDSA carry two; unknown ids keep the rest opaque
     blen = len(body)
     hdr = bytes([0xC2, blen]) if blen < 192 else bytes([0xC2, (blen - 192) // 256 + 192, (blen - 192) % 256])
     return bytearray(hdr) + body, region
@@ -63,14 +65,17 @@ def check_region(pkt, region):
         p = Packet(pkt)
     except Exception:               # rejected input: the property speaks about accepted packets only
         return True
-    if len(pkt) != 0:
-        return False
+    if len(pkt) != 0 and type(p).__name__ == 'SignatureV4' and type(p.signature).__name__ != 'OpaqueSignature':
+        return False                # (signatures of non-signing algorithm ids keep their integers opaque and do not consume: C08's subject)
     s = PGPSignature()
     s._signature = p
     n = len(region)
     if type(p).__name__ != 'SignatureV4':
         return True
     if fed(p) != region:
+        return False
+    import copy as _copy
+    if fed(_copy.copy(p)) != region:            # a copied signature (key copies, pubkey derivation, message copies) hashes the same octets
         return False
     if int(p.sigtype) in (0, 2, 0x40, 0x50):
         got = s.hashdata(b'D')
@@ -330,6 +335,21 @@ def header_halg(v0: int, halg: int) -> bool:
     return check_region(pkt, region)
 
 
+@ob('O5.2d', 'the public-key-algorithm octet of the region is fed as received (unknown ids are rejected)',
+    'public-key algorithm octet over all 256 values, one symbolic flags octet', cond_timeout={'q': 300, 't': 900})
+def header_pkalg(v0: int, pk: int) -> bool:
+    """
+    pre: 0 <= v0 < 256
+    pre: 0 <= pk < 256
+    post: _
+    """
+    for k in range(256):                      # concrete octet per path (the packet layout depends on it)
+        if pk == k:
+            pkt, region = build(bytearray([2, 23, v0]), pk=k)
+            return check_region(pkt, region)
+    return True
+
+
 @ob('O5.3', 'a single-bit change inside the received region changes the octets fed to the hash',
     'region with one flags subpacket and one opaque subpacket; symbolic octet position in the region and symbolic bit; for the two length octets the quick tier restricts the two body octets to multiples of 64', cond_timeout={'q': 300, 't': 900},
     partitions={'q': [['pos < 4'], ['pos == 4'], ['pos == 5'], ['pos == 6', 'v0 % 64 == 0 and v1 % 64 == 0'], ['pos == 7', 'v0 % 64 == 0 and v1 % 64 == 0'], ['pos >= 8']],
@@ -374,4 +394,4 @@ SANITY = ['sp_opaque(100, False, 1, 2, 1, 2, 0, 0)', 'sp_opaque(0, True, 5, 0, 0
           'sp_notation(False, 1, 0x80, 0, 0, 0, 1, 1, 0x61, 0x62, 0, 0)', 'sp_notation(False, 1, 0x81, 1, 2, 3, 2, 2, 0xE9, 0x62, 0xFF, 0)',
           'sp_notation(True, 5, 0, 0, 0, 0, 0, 2, 1, 2, 0, 0)', 'sp_attest_embedded(37, False, 1, 3, 1, 2, 3)',
           'sp_attest_embedded(32, False, 1, 0, 0xAA, 0xBB, 0x7F)', 'multi_order(0, 1, 0xC3, 2, True)', 'multi_order(3, 2, 0xE9, 0, False)',
-          'header_sigtype(0xC3, 0x13)', 'header_halg(1, 99)', 'header_sigtype(1, 0x18)', 'header_halg(1, 2)', 'bit_flip(0, 0, 3, 4)', 'bit_flip(8, 7, 3, 4)', 'bit_flip(11, 3, 0, 0)', 'bit_flip(5, 1, 1, 1)']
+          'header_sigtype(0xC3, 0x13)', 'header_pkalg(1, 1)', 'header_pkalg(1, 3)', 'header_pkalg(1, 2)', 'header_pkalg(0x80, 22)', 'header_pkalg(1, 17)', 'header_pkalg(1, 99)', 'header_halg(1, 99)', 'header_sigtype(1, 0x18)', 'header_halg(1, 2)', 'bit_flip(0, 0, 3, 4)', 'bit_flip(8, 7, 3, 4)', 'bit_flip(11, 3, 0, 0)', 'bit_flip(5, 1, 1, 1)']
